@@ -82,6 +82,12 @@ def variants(a):
         if is_operand:
             out.append((f"and-hint-right@{path}", replace(a, path, ("U", sub, ("k", NEW_HINT)))))
             out.append((f"and-hint-left@{path}", replace(a, path, ("U", ("k", NEW_HINT), sub))))
+            if not path:
+                # and-ing a hint that already occurs in the expression (the same key twice)
+                present = [n[1] for _, n in positions(a) if n[0] == "k" and refsem.category(n[1]) == "hint"]
+                if present:
+                    out.append((f"and-present-hint-left@{path}", replace(a, path, ("U", ("k", present[0]), sub))))
+                    out.append((f"and-present-hint-right@{path}", replace(a, path, ("U", sub, ("k", present[-1])))))
         if has_rc(sub) and not inside_ta and not (sub[0] == "k" and False):
             out.append((f"attach-fc@{path}", replace(a, path, ("ta", sub, ("k", NEW_FC)))))
         if not inside_ta or sub[0] != "k":
